@@ -170,8 +170,11 @@ func (b *circuitBreakerBase) resetCurProbeNum() {
 // fromClosedToOpen updates circuit breaker state machine from closed to open.
 // Return true only if current goroutine successfully accomplished the transformation.
 func (b *circuitBreakerBase) fromClosedToOpen(snapshot interface{}) bool {
+	// The retry deadline must be in place before the Open state becomes visible:
+	// a request that sees Open together with a stale (already expired) deadline
+	// would be admitted as a probe at the very instant the breaker opened.
+	b.updateNextRetryTimestamp()
 	if b.state.cas(Closed, Open) {
-		b.updateNextRetryTimestamp()
 		for _, listener := range stateChangeListeners {
 			listener.OnTransformToOpen(Closed, *b.rule, snapshot)
 		}
@@ -216,9 +219,10 @@ func (b *circuitBreakerBase) fromOpenToHalfOpen(ctx *base.EntryContext) bool {
 // fromHalfOpenToOpen updates circuit breaker state machine from half-open to open.
 // Return true only if current goroutine successfully accomplished the transformation.
 func (b *circuitBreakerBase) fromHalfOpenToOpen(snapshot interface{}) bool {
+	// See fromClosedToOpen: publish the new retry deadline before the Open state.
+	b.updateNextRetryTimestamp()
 	if b.state.cas(HalfOpen, Open) {
 		b.resetCurProbeNum()
-		b.updateNextRetryTimestamp()
 		for _, listener := range stateChangeListeners {
 			listener.OnTransformToOpen(HalfOpen, *b.rule, snapshot)
 		}
